@@ -135,7 +135,7 @@ Proof. exact drain_after_sync. Qed.
 Theorem c18_shuffle_complete :
   (forall order batch, Permutation (reorder order batch) batch) /\
   (forall batch target, Permutation target batch -> NoDup (map c_ud batch) ->
-     reorder (map c_ud target) batch = target).
+     reorder (map key target) batch = target).
 Proof. split; [exact reorder_perm|exact reorder_onto]. Qed.
 
 (* Non-vacuity on the concrete byte-array file system: a write and a read are
@@ -148,23 +148,23 @@ Definition rd : sqe := {| s_op := Read 0 0 4; s_ud := 12; s_flags := 0 |}.
 Definition cn : sqe := {| s_op := Cancel 11; s_ud := 13; s_flags := 0 |}.
 Definition pre : list (hev CFS) :=
   [CFs (x_open 0 0 3); CNew 2; CRing 0 (Push wr); CRing 0 (Push rd); CRing 0 (Push rd); CRing 0 (Submit 0 [100; 100])].
-Definition drain (t : N) (order : list N) : list (hev CFS) :=
+Definition drain (t : N) (order : list (N * Z)) : list (hev CFS) :=
   [CRing 0 CqNew; CRing 0 (Sync t); CRing 0 (Next t order); CRing 0 (Next t order); CRing 0 (Next t order); CFs (x_dump 0)].
 Example c18_nonvacuous :
-  crun 1 (pre ++ drain 100 [11; 12]) =
+  crun 1 (pre ++ drain 100 [(11, 2%Z); (12, 3%Z)]) =
     [(5, [0%Z], []); (0, [0%Z], []); (1, [1%Z], []); (1, [1%Z], []); (1, [0%Z], []); (2, [2%Z], []);
      (6, [], []); (3, [2%Z], []); (4, [11%Z; 2%Z], []); (4, [12%Z; 3%Z], [0; 5; 6]); (4, [], []); (5, [3%Z], [0; 5; 6])] /\
-  crun 1 (pre ++ drain 100 [12; 11]) =
+  crun 1 (pre ++ drain 100 [(12, 0%Z); (11, 2%Z)]) =
     [(5, [0%Z], []); (0, [0%Z], []); (1, [1%Z], []); (1, [1%Z], []); (1, [0%Z], []); (2, [2%Z], []);
      (6, [], []); (3, [2%Z], []); (4, [12%Z; 0%Z], []); (4, [11%Z; 2%Z], []); (4, [], []); (5, [3%Z], [0; 5; 6])] /\
-  crun 1 (pre ++ drain 99 [11; 12]) =
+  crun 1 (pre ++ drain 99 [(11, 2%Z); (12, 3%Z)]) =
     [(5, [0%Z], []); (0, [0%Z], []); (1, [1%Z], []); (1, [1%Z], []); (1, [0%Z], []); (2, [2%Z], []);
      (6, [], []); (3, [0%Z], []); (4, [], []); (4, [], []); (4, [], []); (5, [0%Z], [])] /\
-  crun 1 (pre ++ [CRing 0 (Push cn); CRing 0 (Submit 50 [])] ++ drain 100 [11; 13; 12]) =
+  crun 1 (pre ++ [CRing 0 (Push cn); CRing 0 (Submit 50 [])] ++ drain 100 [(11, (-125)%Z); (13, 0%Z); (12, 0%Z)]) =
     [(5, [0%Z], []); (0, [0%Z], []); (1, [1%Z], []); (1, [1%Z], []); (1, [0%Z], []); (2, [2%Z], []);
      (1, [1%Z], []); (2, [1%Z], []);
      (6, [], []); (3, [3%Z], []); (4, [11%Z; (-125)%Z], []); (4, [13%Z; 0%Z], []); (4, [12%Z; 0%Z], []); (5, [0%Z], [])] /\
-  crun 1 (pre ++ [CCrash; CFs x_crash] ++ drain 100 [11; 12]) =
+  crun 1 (pre ++ [CCrash; CFs x_crash] ++ drain 100 [(11, 2%Z); (12, 3%Z)]) =
     [(5, [0%Z], []); (0, [0%Z], []); (1, [1%Z], []); (1, [1%Z], []); (1, [0%Z], []); (2, [2%Z], []);
      (6, [], []); (5, [0%Z], []);
      (6, [], []); (3, [0%Z], []); (4, [], []); (4, [], []); (4, [], []); (5, [0%Z], [])].
